@@ -140,6 +140,11 @@ impl Lexer {
                                 || (self.input.len() > 1 && !self.possible_search_root)) 
                             && (c == ' ' || c == ',' || is_paren_char(c) || self.is_op_char(c)) {
                             break;
+                        } else if c == ','
+                            && self.possible_search_root
+                            && self.char_index as usize + 1 == input_part.chars().count() {
+                            // a comma that ends the shell word separates this root from the next one
+                            break;
                         }
                     }
 
